@@ -309,3 +309,54 @@ def rule_gs_exec(cx, rep, port='py'):
     # closures read state only through query_context (no nonlocal / global)
     bad = [n for n in ast.walk(car) if isinstance(n, (ast.Global, ast.Nonlocal))]
     rep.decide(not bad, 'closure state', car, 'no global/nonlocal in compile_and_run', '`{}` inside compile_and_run'.format(node_text(bad[0]) if bad else ''))
+
+
+PROCESS_STATE_SETTERS = {
+    'sys.set_int_max_str_digits', 'sys.setrecursionlimit', 'sys.setswitchinterval', 'sys.settrace', 'sys.setprofile', 'sys.setcheckinterval',
+    'os.chdir', 'os.umask', 'os.putenv', 'os.unsetenv', 'locale.setlocale', 'signal.signal', 'random.seed', 'socket.setdefaulttimeout',
+    'warnings.simplefilter', 'warnings.filterwarnings', 'logging.basicConfig', 'csv.field_size_limit', 'decimal.setcontext',
+    'gc.disable', 'gc.enable', 'threading.setprofile', 'threading.settrace', 'faulthandler.enable',
+}
+PROCESS_STATE_OBJECTS = ('os.environ', 'sys.path', 'sys.modules', 'sys.argv', 'sys.stdin', 'sys.stdout', 'sys.stderr')
+
+
+def rule_gs_procstate(cx, rep, port='py'):
+    """the library never changes interpreter- or process-wide settings (conversion limits, recursion limit, locale, working
+    directory, environment, warning filters, ...): such a setting is shared by every query running in the process - a
+    save / change / restore around one query is undone under the feet of another that overlaps it - and by the host application.
+    Zero sites expected; the matcher is checked on a built-in example."""
+    p = cx.py
+    mods = [m for m in ('rbql_engine', 'rbql_csv', 'csv_utils', 'rbql_sqlite', 'rbql_pandas') if m in p.modules]
+
+    def sites(tree):
+        out = []
+        for n in ast.walk(tree):
+            if isinstance(n, ast.Call):
+                d = dotted(n.func) or ''
+                if d in PROCESS_STATE_SETTERS and (n.args or n.keywords or d in ('gc.disable', 'gc.enable', 'faulthandler.enable')):
+                    out.append((n, d))
+                if isinstance(n.func, ast.Attribute) and n.func.attr in ('append', 'insert', 'update', 'pop', 'setdefault', 'clear', 'extend', 'remove') and (dotted(n.func.value) or '') in PROCESS_STATE_OBJECTS[:3]:
+                    out.append((n, dotted(n.func)))
+            if isinstance(n, (ast.Assign, ast.AugAssign, ast.Delete)):
+                tg = n.targets if isinstance(n, (ast.Assign, ast.Delete)) else [n.target]
+                for t in tg:
+                    base = t.value if isinstance(t, ast.Subscript) else t
+                    if (dotted(base) or '') in PROCESS_STATE_OBJECTS:
+                        out.append((n, dotted(base)))
+        return out
+    probe = ast.parse('import sys\nsys.set_int_max_str_digits(0)\nos.environ["X"] = "1"\n')
+    if len(sites(probe)) != 2:
+        rep.undecided('process state matcher', (p.files['rbql_engine'], 0), 'the matcher does not recognise its built-in examples')
+        return
+    n = 0
+    for m in mods:
+        found = sites(p.modules[m])
+        # the broken-pipe epilogue of the CSV writer redirects stdout on purpose when the process is about to end
+        found = [(nd, d) for nd, d in found if not (m == 'rbql_csv' and d in ('sys.stdout', 'sys.stderr'))]
+        n += len(found)
+        if found:
+            nd, d = found[0]
+            fd = enclosing_func(nd)
+            rep.violated('{}: {}'.format(m, d), nd, '`{}` in {}() changes a process-wide setting: it is shared with every other query running in this process (a restore at the end of one query undoes it for another that is still running) and with the host application'.format(node_text(nd, 60), fd.name if fd is not None else '<module>'))
+        else:
+            rep.holds('{}: process-wide settings'.format(m), (p.files[m], 0), 'no call or assignment that changes interpreter / process state')
